@@ -145,15 +145,18 @@ def _grow(ctx):
                         and n.value.func.attr == 'replace' \
                         and isinstance(n.value.func.value, ast.Name) \
                         and n.value.func.value.id == subj \
-                        and len(n.value.args) == 2 and not n.value.keywords:
+                        and len(n.value.args) >= 2:
+                    # replacing by *text* while iterating matches of the
+                    # original string: with or without a count, repeated
+                    # identical matches re-hit earlier occurrences
                     bad = n
             construct = f"{fi.qualname}: for ... in finditer({subj})"
             if bad is not None:
                 ctx.violation(
                     'GROW', construct,
-                    f"`{norm(bad)}` replaces every occurrence of the matched "
-                    f"text once per match of the original string; repeated "
-                    f"identical matches compound the replacement",
+                    f"`{norm(bad)}` replaces by text (not by span) once per match "
+                    f"of the original string; repeated identical matches re-hit the "
+                    f"same occurrences and compound the replacement",
                     key=f"GROW|{fi.qualname}|{subj}",
                     where=common.loc(fi, bad))
             else:
